@@ -197,8 +197,8 @@ fn expected(case: &Case) -> Option<(Bag, Bag)> {
     }
     for (b, f) in &pairs {
         let blk = case.block_by_tid(b)?;
-        if blk.jmps.len() > 2 {
-            return None;
+        if blk.jmps.len() > 2 || (blk.jmps.len() == 2 && !matches!(blk.jmps[0], J::CBranch(_))) {
+            return None; // not normalized: at most two jumps, of two the first is a conditional branch
         }
         for (k, j) in blk.jmps.iter().enumerate() {
             let jt = Case::jump_tid(blk, k);
